@@ -158,6 +158,13 @@ var adMuts = []adMut{
 		a.ExtendedProvider.Override = !a.ExtendedProvider.Override
 		return true
 	}},
+	{"ep-override-flag-of-a-section-without-providers", func(r *rand.Rand, a *schema.Advertisement) bool {
+		if a.ExtendedProvider == nil || len(a.ExtendedProvider.Providers) != 0 {
+			return false
+		}
+		a.ExtendedProvider.Override = !a.ExtendedProvider.Override
+		return true
+	}},
 	{"ep-identity", func(r *rand.Rand, a *schema.Advertisement) bool {
 		if a.ExtendedProvider == nil || len(a.ExtendedProvider.Providers) == 0 {
 			return false
